@@ -638,8 +638,16 @@ type pendingFn struct {
 
 // callFns is filled by Call and materialised after the ending.
 func (b *B) Call(fns *[]pendingFn) {
-	l := b.NewLabel()
 	link := isa.Ra
+	if len(*fns) > 0 && b.R.Chance(1, 2) {
+		// a second call site of an existing function: its return (jalr through
+		// ra) goes to a different place each time
+		f := (*fns)[b.R.Intn(len(*fns))]
+		b.Emit(isa.Inst{Op: isa.JAL, Rd: link, Label: f.label})
+		b.Tag("call-shared")
+		return
+	}
+	l := b.NewLabel()
 	b.Emit(isa.Inst{Op: isa.JAL, Rd: link, Label: l})
 	*fns = append(*fns, pendingFn{label: l, body: b.R.Range(1, 4)})
 	b.Tag("call")
